@@ -19,6 +19,7 @@ import Golem.Driver.C17
 import Golem.Driver.C18
 import Golem.Driver.C19
 import Golem.Driver.C20
+import Golem.Driver.Lockstep
 
 def main (args : List String) : IO UInt32 := do
   match args with
@@ -42,4 +43,5 @@ def main (args : List String) : IO UInt32 := do
   | ["C18"] => Golem.Driver.C18.main; return 0
   | ["C19"] => Golem.Driver.C19.main; return 0
   | ["C20"] => Golem.Driver.C20.main; return 0
+  | ["lockstep"] => Golem.Driver.Lockstep.main; return 0
   | _ => IO.eprintln "usage: oracle <C01..C20>"; return 2
